@@ -111,8 +111,19 @@ def grow(ctx, rule='C16.grow'):
             if has_field(da, 'Meta', 'num_pages') and any(x[0] == 'call' and x[2] == 'std::fs::Metadata::len' for x in da) and has_field(da, 'DBInner', 'pagesize'):
                 decided = True
                 # (b) ... and is taken after the header's num_pages was fixed
-                hw = [b2 for b2, si, s2 in stores_to_field(fn, 'Meta', 'num_pages') if len([e for e in s2['p']['pr'] if e['k'] == 'field']) >= 2]
-                if hw and all(fn.dominates(b2, a) for b2 in hw):
+                hw = [(b2, si) for b2, si, s2 in stores_to_field(fn, 'Meta', 'num_pages') if len([e for e in s2['p']['pr'] if e['k'] == 'field']) >= 2]
+                # loads of the transaction's num_pages (the required size is computed from them)
+                loads = []
+                for b3 in fn.reachable_blocks():
+                    for s3i, s3 in enumerate(fn.blocks[b3]['stmts']):
+                        if s3['k'] == 'assign':
+                            from facts import rvalue_places
+                            for pl in rvalue_places(s3['rv']):
+                                fs = [e for e in pl['pr'] if e['k'] == 'field']
+                                if len(fs) >= 2 and fs[-1].get('name') == 'num_pages' and fs[-2].get('adt') and last_seg(fs[-2]['adt']) == 'TxInner':
+                                    loads.append((b3, s3i))
+                after = lambda st, ld: (st[0] == ld[0] and st[1] < ld[1]) or (st[0] != ld[0] and fn.dominates(st[0], ld[0]))
+                if hw and loads and all(any(after(st, ld) for st in hw) for ld in loads if fn.dominates(ld[0], a) or ld[0] == a):
                     res.append(ok(rule, 'growth decision at %s compares the file length with num_pages * pagesize after the final high-water mark is known' % fn.loc(a), sites=1))
                 else:
                     res.append(bad(rule, '%s | required size computed before the final high-water mark' % fn.qual,
